@@ -108,6 +108,11 @@ pub fn replay(args: &[String], out: &mut Out) {
                     if !union.contains(f) && !is_txmod { bad.push((format!("C14/merge/invented/{}", fact_name(tables, f, nin)), adds_label.join(" | "))); }
                 }
                 if acc.unique_id().ok() != ids[ord[0]] { bad.push(("C14/merge/unique-id-changed".into(), adds_label.join(" | "))); }
+                // the merged PSET is a well-formed PSET: it survives its own codec (no duplicated keys, consistent counts)
+                match elements::encode::deserialize::<Pset>(&serialize(&acc)) {
+                    Ok(q) if q == acc => {}
+                    other => bad.push(("C14/merge/result-does-not-round-trip".into(), format!("{} -> {:?}", adds_label.join(" | "), other.map(|_| ()).map_err(|e| e.to_string())))),
+                }
                 if merged.len() == descs.len() { results.push(acc); }
             }
             if all_same && results.len() >= 2 {
@@ -165,6 +170,26 @@ pub fn keysources(args: &[String], out: &mut Out) {
                         if p.global.xpub.get(&x) != Some(keep) { out.viol(&format!("C14/xpub/wrong-key-source-kept/{}", cls), case.clone(), dir.to_string()); }
                     }
                 }
+            }
+        }
+    }
+    // PSETs whose unique id cannot be computed (contradictory required lock times) are not "the same transaction" as anything:
+    // merging one with a PSET of another transaction must be refused, in both directions
+    {
+        out.count("distinct_cases");
+        out.count("evaluations");
+        let mut broken = ancestor(seed, 2, 2);
+        broken.inputs_mut()[0].required_time_locktime = Some(elements::locktime::Time::from_consensus(1_600_000_000).unwrap());
+        broken.inputs_mut()[1].required_height_locktime = Some(elements::locktime::Height::from_consensus(700_000).unwrap());
+        let mut other = ancestor(seed ^ 0x5555, 2, 2);
+        set_input_field(&mut other.inputs_mut()[0], "partial_sigs", &mut r);
+        if broken.unique_id().is_ok() { out.viol("C14/harness/conflicting-locktimes-have-an-id", json!({}), String::new()); }
+        for (a, b, dir) in [(&broken, &other, "broken<-other"), (&other, &broken, "other<-broken")] {
+            let mut acc = a.clone();
+            match guard(|| acc.merge(b.clone())) {
+                Err(pn) => out.viol("C14/merge/panic/undecidable-id", json!({"dir": dir}), pn),
+                Ok(Ok(())) => out.viol("C14/merge/accepted-different-unique-id/id-not-computable", json!({"dir": dir}), "merge of PSETs of different transactions accepted because one id is not computable".into()),
+                Ok(Err(_)) => {}
             }
         }
     }
